@@ -325,6 +325,11 @@ def reg_value(rng, which):
                 datetime.timedelta(hours=1, minutes=2, seconds=3),
                 datetime.timedelta(days=400),
                 datetime.timedelta(0),
+                datetime.timedelta(days=1, hours=6),
+                datetime.timedelta(days=-1),
+                datetime.timedelta(hours=30),
+                datetime.timedelta(microseconds=1),
+                datetime.timedelta(days=999999, microseconds=1),
             ]
         )
     if which == "bytes":
@@ -332,7 +337,7 @@ def reg_value(rng, which):
     if which == "bytearray":
         return bytearray(rng.choice([b"abc", b"", b"\x00\xff"]))
     if which == "range":
-        return rng.choice([range(5), range(2, 7), range(0, 10, 3), range(5, 0, -1), range(0), range(-3, 3)])
+        return rng.choice([range(5), range(2, 7), range(0, 10, 3), range(0, 10, 2), range(0, -9, -3), range(5, 0, -1), range(0), range(-3, 3)])
     if which == "pathlib":
         return pathlib.Path(rng.choice(["some/rel/path.txt", "/abs/path", ".", "file.yaml"]))
     if which == "secret":
@@ -354,9 +359,9 @@ def conforming(rng, t, hostile=0.0, size=3):
     if k == "str":
         return gen_str(rng, hostile)
     if k == "int":
-        return rng.choice([0, 1, -1, 7, 42, 10**12, -5])
+        return rng.choice([0, 1, -1, 7, 42, 10**12, -5, 2**53 + 1, 10**18 + 1, -(10**30)])
     if k == "float":
-        return rng.choice([0.5, -1.25, 3.0, 1e-7, 2.5e10, 0.0, 100.125])
+        return rng.choice([0.5, -1.25, 3.0, 1e-7, 2.5e10, 0.0, 100.125, 1e16, -4e21, 2e22, 1e300, 1.5e300, 5e-324, 1e-5, 123456789.125])
     if k == "bool":
         return rng.random() < 0.5
     if k == "any":
@@ -425,8 +430,12 @@ def class_spec(rng):
         return {"class_path": "vf.fixtures.zoo.Base", "init_args": {"a": rng.randrange(9)}}
     if r < 0.6:
         return {"class_path": "vf.fixtures.zoo.SubA", "init_args": {"a": rng.randrange(9), "b": rng.choice(WORDS)}}
-    if r < 0.8:
+    if r < 0.7:
         return {"class_path": "vf.fixtures.zoo.SubB", "init_args": {"c": 0.25, "flag": True, "a": 4}}
+    if r < 0.8:
+        return {"class_path": "vf.fixtures.zoo.KwOnly", "dict_kwargs": {"z": rng.randrange(9), "w": "q"}}
+    if r < 0.88:
+        return {"class_path": "vf.fixtures.zoo.WithDictKwargs", "init_args": {"a": 3}, "dict_kwargs": {"extra": [1, 2]}}
     return {"class_path": "vf.fixtures.zoo.SubList", "init_args": {"items": [1, 2], "t": (3, "q")}}
 
 
